@@ -214,9 +214,26 @@ func runC04(ctx *h.Ctx) int {
 			}
 			k.Count("accepted", 1)
 			tag := fmt.Sprintf("optimize=%v", opt)
-			if !closedCheck(k, rp, res.Out, tag) {
+			if kk, probe := k.Dry(); !closedCheck(kk, rp, res.Out, tag) && len(probe.Keys) > 0 {
+				// reduce the program while the same kind of violation remains, then report
+				key, msg := probe.Keys[0], probe.Msgs[0]
+				det := map[string]interface{}{"output": res.Out}
+				msrc, mmsg := shrinkFor(k, prog, key, func(k2 *h.Case, src string) {
+					r := h.Compile(src, optsOf(prog, opt))
+					rp2, err := spec.Resolve(prog, prog.Switches)
+					if r.OK() && err == nil {
+						closedCheck(k2, rp2, r.Out, tag)
+					}
+				})
+				if msrc != "" {
+					msg += "\nreduced witness:\n" + msrc + "--- " + mmsg
+					det["minimal_source"] = msrc
+					det["minimal_output"] = h.Compile(msrc, optsOf(prog, opt)).Out
+				}
+				k.Violation(key, msg, det)
 				return
 			}
+			closedCheck(k, rp, res.Out, tag)
 			if !vmCheck(k, rp, res.Out, vmCheckOpts{NStates: ctx.N(4, 12), Cands: g.Cands(), Orig: prog, Optimize: opt}, tag) {
 				return
 			}
